@@ -14,6 +14,7 @@ from vlib import configrun, gen_json as G, keys, related
 from vlib.ref_canon import canon, jeq
 from vlib import fuzz as FZ
 from vlib.runner import Unit, Violation
+from vlib import interfere as _intf, interrupt as _interrupt
 
 PROPERTY = "C07"
 LEVEL = "exploration"
@@ -451,4 +452,6 @@ UNITS = [
          doc="every Unicode code point (incl. lone surrogates) as element, as key and inside a string"),
     Unit("config", check_config, shrink=False, strategy=_corpus_and_config, quick=24, thorough=400,
          doc="child interpreters under generated hash seed/locale/TZ/cwd/UTF-8 mode"),
+    _intf.unit_after(PROPERTY, 'differential', quick=150, thorough=6000),
+    _interrupt.unit_interrupted(PROPERTY, 'differential', quick=18, thorough=450, max_points=150),
 ]
